@@ -1,6 +1,6 @@
 (* C16  Every emitted script is well-formed for its interpreter.  Bash half proved for all programs;
    Batch half: checker validated per run (C16_batch_statement is not proved). *)
-From Verif Require Import Base.Bytestr Front.Ast Back.BashLines Back.Transpile Back.BashConv Back.BashSyntax Back.BashFacts.
+From Verif Require Import Base.Bytestr Front.Ast Back.BashLines Back.Transpile Back.BashConv Back.BashSyntax Back.BashFacts Back.BatchConv Back.TraverseInv Back.BatchLabels.
 Open Scope N_scope.
 
 (* For every program all of whose statements emit a command (the parser only builds such programs:
@@ -29,6 +29,13 @@ Theorem C16_statement_block : forall st s s',
   exists ls, sext s s' ls /\ ls <> [] /\ (forall stk, stk <> [] -> check ls stk = Some (mark stk)) /\ call_lines ls = calls_stmt st.
 Proof. exact C16_statement_block_proof. Qed.
 Print Assumptions C16_statement_block.
+
+(* Batch half, the part that is proved for every program: the labels of loops and conditionals are defined once. *)
+Theorem C16_batch_labels_unique : forall body script st,
+  emit_batch body = TOk script st -> names_ok_all plain_name body = true ->
+  forall c k, fam c -> (cnt (lab c k) (concat (rev (w_funcs_code st)) ++ w_global st) <= 1)%nat.
+Proof. exact batch_family_labels_unique. Qed.
+Print Assumptions C16_batch_labels_unique.
 
 (* Non-vacuity and the role of the hypothesis: an if whose body is an unused expression (which the parser
    now rejects) would leave the then-part empty -- the checker sees it. *)
